@@ -221,6 +221,32 @@ pub fn clip_cell(setup: &ClipSetup, ngb: usize, shift: Option<DVec3>) -> ConvexC
     cell
 }
 
+/// Clip an existing cell (e.g. one built by the library, with its internal boundary-cycle object
+/// in whatever state the construction left it, and with `vertices` reordered / their `dual`
+/// triples rotated by the caller) by the bisector towards `generators[ngb] (+ shift)`.
+/// `generators` must agree with the generators the cell was built from on the indices the cell
+/// refers to; it may contain additional ones (such as `ngb`).
+#[allow(clippy::too_many_arguments)]
+pub fn clip_existing(
+    cell: &mut ConvexCell<WithoutFaces>,
+    generators: &[DVec3],
+    anchor: DVec3,
+    width: DVec3,
+    periodic: bool,
+    dimensionality: Dimensionality,
+    ngb: usize,
+    shift: Option<DVec3>,
+) {
+    let generators: Vec<Generator> = generators
+        .iter()
+        .enumerate()
+        .map(|(id, &loc)| Generator::new(id, loc, dimensionality))
+        .collect();
+    let boundary = SimulationBoundary::cuboid(anchor, width, periodic, dimensionality);
+    let plane = bisector(cell.loc, &generators, ngb, shift);
+    cell.clip_by_plane(plane, &generators, &boundary);
+}
+
 // ---------------------------------------------------------------------------
 // boundary cycle
 // ---------------------------------------------------------------------------
